@@ -55,7 +55,7 @@ CLAIMED["C15"] = dict(
          "fields fail unwritten, the tunnel proceeds only after an offered method and success replies, UDP header wrap/unwrap round "
          "trip and totality, credentials split at the first colon (with a proven base64 round trip); tied by constants/flags from the "
          "translator and a differential run of the real socks5_client::connect over an in-memory duplex against a scripted server "
-         "(all selections, statuses, reply codes, truncation at every byte, segmentations), with the grammar as oracle on the real bytes; the stream handed on after a successful CONNECT starts exactly behind the server's reply (theorem tunnel_stream_follows_the_reply; the door returns the stream, every cut inside the reply is exercised)",
+         "(all selections, statuses, reply codes, truncation at every byte, segmentations), with the grammar as oracle on the real bytes; the stream handed on after a successful CONNECT starts exactly behind the server's reply (theorem tunnel_stream_follows_the_reply; the door returns the stream, every cut inside the reply is exercised); end to end: the real endpoint configured with a SOCKS5 upstream against a scripted SOCKS5 server (user/password and extended authentication, every selection / status / reply code, tunnel bytes right behind the reply, byte-wise delivery): the bytes it writes parse under the grammar, the client is answered 200 / 407 / 502+X-Warning as the dialogue went (theorem ok_answer_only_after_a_successful_dialogue)",
     note="trusted: Coq kernel, Model/Socks5.v, Spec/Rfc1928.v, Lib/Base64.v + Lib/Utf8.v (models of the base64 crate / from_utf8), "
          "translator, extraction + driver, harness doors verif::socks",
     design="DESIGN.md 5 C15")
@@ -101,7 +101,7 @@ CLAIMED["C14"] = dict(
          "connection_establishment_timeout -> 502/302, TLS accept under tls_handshake_timeout). Tied by the differential run of the "
          "real DuplexPipe under the paused clock on activity patterns around T (incl. exact ties) with direct 'not before T, not "
          "after 2T' oracles; the session-level timer (client_listener_timeout) is modelled in Listener.v: closed by it only with no request in service, "
-         "idle sessions closed; tied by a fact and by real sessions with a tunnel transferring under a short listener timeout; real-stack scenarios: CONNECT to a listener that never answers (establishment timeout, theorem establishment_settled_by_its_own_timeout) and the real listener's timers (silent TCP connection, half a ClientHello, completed handshake without a request)",
+         "idle sessions closed; tied by a fact and by real sessions with a tunnel transferring under a short listener timeout; real-stack scenarios: CONNECT to a listener that never answers (establishment timeout, theorem establishment_settled_by_its_own_timeout) and the real listener's timers (silent TCP connection, half a ClientHello, completed handshake without a request); idle service sessions (speedtest download / upload, ping) over HTTP/2 and HTTP/3 are closed by their session timer",
     note="partial: tokio's timer is modelled as exact (a late timer only delays a close); establishment/handshake timeouts are not "
          "driven here (C10 drives the 502/302 path); trusted as for C02",
     design="DESIGN.md 5 C14")
@@ -143,7 +143,7 @@ CLAIMED["C17"] = dict(
          "yields the concatenated data and the end of body), delivers exactly n bytes for Content-Length n and everything for "
          "close-delimited bodies; the model's hex/extension parser is proved to meet the hypotheses. Tied by translator facts "
          "(ForwardedFacts.v) and by the differential run of the real into_forwarded pair + real DuplexPipe against an independent oracle for "
-         "request serialization, hop-by-hop filtering, interim responses, bodiless statuses and bodies; 48+ exchanges through the real endpoint (Core::listen): real HTTP/2-over-TLS and HTTP/3-over-QUIC clients against a scripted origin on loopback, same oracle",
+         "request serialization, hop-by-hop filtering, interim responses, bodiless statuses and bodies; 48+ exchanges through the real endpoint (Core::listen): real HTTP/2-over-TLS and HTTP/3-over-QUIC clients against a scripted origin on loopback, same oracle; large bodies into a small client window, and a sweep of piece sizes that runs an HTTP/3 stream's window down to its last bytes",
     note="partial: response-head parsing, request serialization and header filtering are checked by the differential run only; "
          "httparse::parse_chunk_size is a parameter; known finding h2-request-body-unframed; trusted: Coq kernel, Model/Forwarded.v, "
          "translator facts, extraction + driver, harness door verif::forwarded",
